@@ -57,19 +57,20 @@ type cmtJ struct {
 }
 
 type fileFacts struct {
-	Panic       string   `json:"panic,omitempty"`
-	ParseErr    string   `json:"parse_err"`
-	Header      *headerJ `json:"header,omitempty"`
-	Steps       []stepJ  `json:"steps"`
-	HasOut      bool     `json:"has_out"`
-	Formatted   []byte   `json:"formatted"`
-	FormatErr   string   `json:"format_err"`
-	FmtParseErr string   `json:"fmt_parse_err"` // parse error of Formatted, if any
-	Processed   []byte   `json:"processed"`
-	ProcErr     string   `json:"proc_err"`
-	APIOut      []byte   `json:"api_out"`
-	APIErr      string   `json:"api_err"`
-	APIPanic    string   `json:"api_panic,omitempty"`
+	Panic        string   `json:"panic,omitempty"`
+	ParseErr     string   `json:"parse_err"`
+	Header       *headerJ `json:"header,omitempty"`
+	Steps        []stepJ  `json:"steps"`
+	HasOut       bool     `json:"has_out"`
+	Formatted    []byte   `json:"formatted"`
+	FormatErr    string   `json:"format_err"`
+	FmtParseErr  string   `json:"fmt_parse_err"` // parse error of Formatted, if any
+	Processed    []byte   `json:"processed"`
+	ProcErr      string   `json:"proc_err"`
+	ProcParseErr string   `json:"proc_parse_err"` // parse error of Processed, if any
+	APIOut       []byte   `json:"api_out"`
+	APIErr       string   `json:"api_err"`
+	APIPanic     string   `json:"api_panic,omitempty"`
 }
 
 type factsResult struct {
@@ -165,6 +166,9 @@ func runFactsFile(fset *token.FileSet, progs []*patch.VerifProgram, c factsCase,
 		ff.ProcErr = tr.ProcErr
 		if tr.Formatted != nil {
 			ff.FmtParseErr = parseErrOf(f.Name, tr.Formatted)
+		}
+		if tr.Processed != nil && tr.ProcErr == "" {
+			ff.ProcParseErr = parseErrOf(f.Name, tr.Processed)
 		}
 	}()
 	if c.API && len(c.Patches) == 1 {
